@@ -2,7 +2,8 @@
 
    Tree w: (C1/C2) c in children(p) <-> c tracked, bookkept parent of c = lid p <> 0, same region, p tracked;
            (C3) children duplicate-free; (O1/O2) c in orphans[p] <-> c tracked, parent of c = p <> 0, p untracked
-           in that region; (O3) orphan lists duplicate-free.
+           in that region; (O3) orphan lists duplicate-free; (P) the Parent reference of an object names exactly
+           the object whose children list holds it (None when it is in no list).
 
    The handlers pass through states where one object is detached or still bookkept under its old parent, and
    where one local id is (un)indexed before its orphan list is fixed up.  TreeG generalises Tree by
